@@ -377,11 +377,21 @@ func checkFieldGuard(p *Prog, r *Report) {
 			r.fail("anchor %s not found", name)
 			continue
 		}
+		nStores := 0
 		eachInstr(f, func(ins ssa.Instruction) {
-			mu, ok := ins.(*ssa.MapUpdate)
-			if !ok {
+			var mu ssa.Instruction
+			if m, ok := ins.(*ssa.MapUpdate); ok {
+				mu = m
+			} else if c, ok := ins.(*ssa.Call); ok {
+				// a delegation to the type's own AddAttr / AddRel stores the field too
+				if g := c.Common().StaticCallee(); g != nil && (funcName(g) == "(*Type).AddAttr" || funcName(g) == "(*Type).AddRel") {
+					mu = c
+				}
+			}
+			if mu == nil {
 				return
 			}
+			nStores++
 			// dominated by the completion of a loop over fields() comparing names with return on match
 			good := false
 			for _, b := range f.Blocks {
@@ -423,5 +433,6 @@ func checkFieldGuard(p *Prog, r *Report) {
 			r.decide(good, "C19.field-guard", name+":"+p.describe(mu), p.pos(mu.Pos()), "stored only after a complete scan of all field names found no equal name",
 				"a field is stored without a complete scan of the names of both attributes and relationships: a resource can end up with two fields of one name")
 		})
+		r.floor("field stores in "+name, nStores, 1)
 	}
 }
